@@ -3,6 +3,7 @@ from __future__ import annotations
 
 import itertools
 import random
+from collections import Counter
 
 import networkx as nx
 
@@ -13,13 +14,16 @@ from .jobs import REGISTRY, Collector, job
 from .sym import Sym, same, short
 
 
-def mk_sel_spec(n, edges, rng, setup=(), debug=(), tags=None, with_param=(), mc=None, kw_edges=(), keyed_returns=False):
+def mk_sel_spec(n, edges, rng, setup=(), debug=(), tags=None, with_param=(), mc=None, kw_edges=(), keyed_returns=False, fn_names=None):
     fns, nodes = {}, []
+    fn_names = fn_names or {}
     for i in range(n):
-        fns["f%d" % i] = dict(priority=rng.choice([0, 0, 1, 3, -1]), is_sequential=rng.random() < 0.1,
-                              resource=rng.choice(["thread", "thread", "async-thread", "main-thread"]),
-                              setup=i in setup, debug=i in debug, tag=(tags or {}).get(i))
-        nd = {"fn": "f%d" % i, "args": [], "kwargs": {}, "active": None}
+        fname = fn_names.get(i, "f%d" % i)
+        attrs = dict(priority=rng.choice([0, 0, 1, 3, -1]), is_sequential=rng.random() < 0.1,
+                     resource=rng.choice(["thread", "thread", "async-thread", "main-thread"]),
+                     setup=i in setup, debug=i in debug, tag=(tags or {}).get(i))
+        fns.setdefault(fname, attrs)  # a function used at several call sites is declared once
+        nd = {"fn": fname, "args": [], "kwargs": {}, "active": None}
         for (j, k) in edges:
             if k == i:
                 if (j, k) in kw_edges:
@@ -35,8 +39,8 @@ def mk_sel_spec(n, edges, rng, setup=(), debug=(), tags=None, with_param=(), mc=
         for i in range(n):
             if rng.random() < 0.3 and not any(k == i for (_j, k) in []) and i not in setup:
                 users = [m for m in nodes if any(a[0] == "n" and a[1] == i for a in list(m["args"]) + list(m["kwargs"].values()))]
-                if not users:
-                    fns["f%d" % i]["shape"] = ["tuple", 2]
+                if not users and sum(1 for m in nodes if m["fn"] == nodes[i]["fn"]) == 1:
+                    fns[nodes[i]["fn"]]["shape"] = ["tuple", 2]
                     ret[i] = ["n", i, [rng.randrange(2)]]
     return {"name": "prog", "params": ["x"], "defaults": {"x": 7}, "fns": fns, "nodes": nodes,
             "ret": ["tuple", ret], "mc": mc or rng.randint(1, 3), "is_async": False}
@@ -152,16 +156,34 @@ def triples_for(spec, rng, exhaustive, limit=None):
 
 def run_shape(col, pid, rng, n, edges, exhaustive, limit, with_setup=False, with_tags=True):
     tags = {}
+    fn_names = {i: "f%d" % i for i in range(n)}
+    if n >= 3 and rng.random() < 0.35:
+        # functions used at several call sites (ids f, f<<1>>, f<<2>> ... are documented aliases) whose NAMES are prefixes of
+        # each other (n1, n11, n111 like fetch / fetch_all): the numbering of one must not be disturbed by the other
+        chain = rng.random() < 0.6
+        fn_names = {i: ("n" + "1" * (i + 1)) if chain else "f%d" % i for i in range(n)}
+        for i in range(1, n):
+            if rng.random() < 0.45:
+                fn_names[i] = fn_names[rng.randrange(i)]
+        col.counters["c12_shapes_with_reused_functions"] += 1
+    uses = Counter(fn_names.values())
+    unique = {i for i in range(n) if uses[fn_names[i]] == 1}
+    _k = {}
+    pred_ids = []
+    for i in range(n):
+        c = _k.get(fn_names[i], 0)
+        _k[fn_names[i]] = c + 1
+        pred_ids.append(fn_names[i] if c == 0 else "%s<<%d>>" % (fn_names[i], c))
     if with_tags:
-        for i in range(n):
+        for i in sorted(unique):
             r = rng.random()
             if r < 0.25:
                 # possibly shared; some tags are substrings of other tags ("T1" in "T10", "aT1")
                 tags[i] = rng.choice(["T0", "T1", "T1", "T10", "aT1"])
             elif r < 0.35 and n > 1:
-                tags[i] = "f%d" % rng.choice([j for j in range(n) if j != i])  # a tag equal to ANOTHER node's id
+                tags[i] = pred_ids[rng.choice([j for j in range(n) if j != i])]  # a tag equal to ANOTHER node's id
             elif r < 0.42 and n > 1:
-                tags[i] = "pre_f%d_x" % rng.choice([j for j in range(n) if j != i])  # a tag that CONTAINS another node's id
+                tags[i] = "pre_%s_x" % pred_ids[rng.choice([j for j in range(n) if j != i])]  # a tag that CONTAINS another node's id
     g0 = nx.DiGraph()
     g0.add_nodes_from(range(n))
     g0.add_edges_from(edges)
@@ -169,15 +191,21 @@ def run_shape(col, pid, rng, n, edges, exhaustive, limit, with_setup=False, with
     if with_setup:
         # a setup node may only depend on setup nodes: choose an ancestor-closed set
         for i in range(n):
-            if all(j in setup for j in g0.predecessors(i)) and rng.random() < 0.5:
+            if i in unique and all(j in setup for j in g0.predecessors(i)) and rng.random() < 0.5:
                 setup.add(i)
     kw_edges = {e for e in edges if rng.random() < 0.3}
     with_param = {i for i in range(n) if i not in setup and g0.in_degree(i) > 0 and rng.random() < 0.3}
-    spec = mk_sel_spec(n, edges, rng, setup=setup, tags=tags, with_param=with_param, kw_edges=kw_edges, keyed_returns=rng.random() < 0.5)
+    spec = mk_sel_spec(n, edges, rng, setup=setup, tags=tags, with_param=with_param, kw_edges=kw_edges, keyed_returns=rng.random() < 0.5,
+                       fn_names=fn_names)
     spec["is_async"] = rng.random() < 0.25
     plain = {name: probes.mkprobe(name, shape=tuple(fs["shape"]) if fs.get("shape") else None) for name, fs in spec["fns"].items()}
     ids = S.node_ids(spec)
     rp = {"kind": "sel_case", "n": n, "edges": edges, "spec": spec, "source": S.render(spec)}
+    d0, _e, _p = S.build_tawazi(spec, plain=plain)
+    if set(ids) - set(d0.exec_nodes):
+        col.violation(pid, "node_ids_of_reused_functions_not_as_documented", dict(
+            expected=ids, dag_has=sorted(k for k in d0.exec_nodes if ">" not in k.replace("<<", "").replace(">>", ""))[:20], source=S.render(spec)), rp)
+        return
     d = None
     trs = triples_for(spec, rng, exhaustive, limit)
     env_values = {}
@@ -196,7 +224,8 @@ def run_shape(col, pid, rng, n, edges, exhaustive, limit, with_setup=False, with
                 al.append(a)
                 if den != {i}:
                     denoted_ok = False  # the alias denotes other / more call sites: recompute the triple it really means
-            kw[name] = al
+            # the parameters are Sequence[Alias]: a tuple of aliases is as good as a list
+            kw[name] = tuple(al) if rng.random() < 0.3 else al
         if not denoted_ok:
             def expand(sites, al):
                 if sites is None:
@@ -244,6 +273,11 @@ def job_sel(j):
     rng = random.Random(j["seed"])
     col = Collector()
     pid = j.get("pid", "C12")
+    if j.get("only"):
+        from .jobs import Filtered
+
+        real = col
+        col = Filtered(col, j["only"])
     for n in j.get("exhaustive_n", []):
         shapes = list(all_shapes(n))
         for k, edges in enumerate(shapes):
